@@ -13,7 +13,8 @@ LEAN_MODULE = 'Proofs.C04'
 THEOREMS = ['Fsic.C04.' + n for n in [
     'runPass_frame', 'runPass_append', 'runPass_last', 'solveT_cells_frame', 'solveT_cells_frame_no_offset',
     'series_frame', 'rejected_unchanged', 'reads_in_span', 'read_index_no_wrap', 'default_range_is_feasible',
-    'infeasible_period_rejected', 'feasibleB_iff']] + ['Fsic.solveT_inv', 'Fsic.C02.solveT_infeasible']
+    'infeasible_period_rejected', 'feasibleB_iff', 'generated_model_frame', 'solveList_inv',
+    'generated_solve_frame']] + ['Fsic.solveT_inv', 'Fsic.C02.solveT_infeasible']
 RULE = ('parser-built models from the C01 grammar (no verbatim code; lags and leads up to 3; with and without offsets on the '
         'left-hand side), every span length from LAGS+LEADS+1 to +3, EVERY period position in both spellings incl. the '
         'infeasible ones at both ends, option sets of C02/C06 (offsets in/out of span, min/max_iter, errors modes, pre-existing '
